@@ -19,6 +19,9 @@ def run(ctx: Ctx, chk) -> None:
     chk.run_rule(eea_send, ctx)
     chk.run_rule(not_a_message, ctx)
     chk.run_rule(outcome1, ctx)
+    from . import c08
+
+    chk.run_rule(lambda c, k: c08.write_then_forget(c, k, loss_only=True), ctx)
 
 
 def exhaust(ctx: Ctx, chk) -> None:
@@ -170,6 +173,7 @@ def outcome1(ctx: Ctx, chk) -> None:
                 stores = set()
                 for attr in sb.BUFFERS:
                     stores |= {id(sb._stmt(ctx, f, s[0])) for s in sb.store_sites(ctx, f, attr)}
+                    stores |= {id(u[0]) for u in sb.inplace_updates(ctx, f, attr) if u[2] == "payload"}
                 writes = {id(sb._stmt(ctx, f, n)) for n in ctx.own_nodes(f) if isinstance(n, ast.Call) and norm(n.func).endswith("transport.write")}
                 delegates = {id(sb._stmt(ctx, f, n)) for n in ctx.own_nodes(f) if isinstance(n, ast.Call) and isinstance(n.func, ast.Attribute) and isinstance(n.func.value, ast.Call) and norm(n.func.value.func) == "super"}
                 bad = None
@@ -186,3 +190,10 @@ def outcome1(ctx: Ctx, chk) -> None:
                     p, ev = bad if bad else ([], [])
                     chk.refute(rule, key, f"a path through {f.qualname} has {len(ev)} outcomes ({' -> '.join(g.path_text(p)[1:5])}): the message is {'silently discarded' if not ev else 'both parked and written'}", f.where)
     chk.floor(rule, "outgoing handler definitions", len(done), 5)
+
+
+def thorough(ctx: Ctx, chk) -> None:
+    from .common import prune_diff
+
+    entries = [(ctx.func(SEND), V) for V in ctx.versions]
+    prune_diff(ctx, chk, entries)
